@@ -505,6 +505,13 @@ fn harnesses(tier: Tier) -> Vec<Harness> {
             Some(3),
         ),
     ];
+    // a word that is already dirty, one thread clearing or marking in it while the other thread
+    // (or two others) makes TWO changes to the same word: an update that retries after losing a
+    // race must re-apply its own bits only
+    v.push(hi("premarked-reset-bit-vs-two-marks-same-word", vec![10], vec![vec![ResetBit(10)], vec![SetBit(12), SetBit(9)]], None));
+    v.push(hi("premarked-reset-range-vs-two-markers", vec![10], vec![vec![ResetRange(10, 1)], vec![SetBit(12)], vec![SetBit(9)]], None));
+    v.push(hi("premarked-mark-vs-mark-then-harvest", vec![3], vec![vec![SetBit(5)], vec![SetBit(7), Harvest]], None));
+    v.push(hi("premarked-range-mark-vs-mark-vs-harvest", vec![3], vec![vec![SetRange(5, 1)], vec![SetBit(7)], vec![Harvest]], None));
     v.push(h("reset-range-vs-mark-vs-harvest", vec![vec![ResetRange(62, 3)], vec![SetBit(63), SetBit(66)], vec![Harvest]], None));
     v.push(h("nested-slice-mark-vs-reset-bit", vec![vec![SliceMark(32, 31, 3)], vec![ResetBit(64), SetBit(64)]], None));
     v.push(h("clone-vs-reset-vs-mark", vec![vec![Clone], vec![ResetBit(5)], vec![SetBit(5), SetBit(6)]], None));
@@ -739,7 +746,22 @@ pub fn run(tier: Tier, replay: Option<String>) -> i32 {
         }
         return ctx.finish();
     }
-    let hs = harnesses(tier);
+    let mut hs = harnesses(tier);
+    // smallest schedule spaces first (estimated from the number of atomic steps the unchanged
+    // library makes per operation): should an implementation need more steps per operation, the
+    // caps are reached in the largest harnesses last, after the small ones were explored fully
+    hs.sort_by_key(|h| {
+        let words = h.pages.div_ceil(64);
+        let steps: Vec<usize> = h
+            .threads
+            .iter()
+            .map(|t| t.iter().map(|o| match o {
+                Op::Harvest | Op::Clone => words,
+                o => o.marks(h.page).len().max(o.resets(h.page).len()).clamp(1, 80),
+            }).sum::<usize>())
+            .collect();
+        multinomial(&steps).min(u64::MAX as u128) as u64
+    });
     for h in &hs {
         run_harness(&ctx, h, 14);
         if ctx.elapsed() > if tier.thorough() { 3000.0 } else { 120.0 } {
